@@ -17,6 +17,7 @@ package message
 import (
 	"encoding/binary"
 	"fmt"
+	"sync/atomic"
 )
 
 var (
@@ -255,4 +256,14 @@ func (h *header) msglen() int {
 	}
 
 	return total
+}
+
+// NewPacketID returns the next packet ID of the process wide counter that
+// Encode uses for messages without one. It is never 0.
+func NewPacketID() uint16 {
+	for {
+		if id := uint16(atomic.AddUint64(&gPacketID, 1) & 0xffff); id != 0 {
+			return id
+		}
+	}
 }
